@@ -20,24 +20,24 @@ type Field struct {
 
 // Field classes.
 const (
-	ClsEncKey   = "enckey"
-	ClsPadding  = "padding"
-	ClsSignKey  = "signkey"
-	ClsCert     = "cert"
-	ClsCertLen  = "certlen"
-	ClsCertPay  = "certpayload"
-	ClsHeader   = "header"
-	ClsCount    = "count"
-	ClsLen      = "len"
-	ClsLease    = "lease"
-	ClsKey      = "key"
-	ClsOptions  = "options"
-	ClsOffline  = "offline"
-	ClsOffSig   = "offline_sig"
-	ClsSig      = "signature"
-	ClsBody     = "body"
-	ClsString   = "string"
-	ClsEntry    = "entry"
+	ClsEncKey     = "enckey"
+	ClsPadding    = "padding"
+	ClsSignKey    = "signkey"
+	ClsCert       = "cert"
+	ClsCertLen    = "certlen"
+	ClsCertPay    = "certpayload"
+	ClsHeader     = "header"
+	ClsCount      = "count"
+	ClsLen        = "len"
+	ClsLease      = "lease"
+	ClsKey        = "key"
+	ClsOptions    = "options"
+	ClsOffline    = "offline"
+	ClsOffSig     = "offline_sig"
+	ClsSig        = "signature"
+	ClsBody       = "body"
+	ClsString     = "string"
+	ClsEntry      = "entry"
 	ClsEntryProps = "entry_props"
 )
 
